@@ -5,12 +5,15 @@
 * `mk`: a copy of the encrypted bbb tracks whose stored representations list TWO
   key ids (the fixture KID + KID_B) – exercises pssh version 1 / WRMHEADER 4.2
   through HTTP; every track of an adaptation set has the same key set;
+* `m3`: as `mk` with THREE key ids per track;
 * `mx`: as `mk`, but only ONE of the two video tracks lists the second key id
   (the adaptation set's key set is larger than one track's) – used for the ledger
   witness of the manifest/init mismatch only;
 * `va`: video tracks with the fixture KID, audio track = a copy of bbb_a1_enc whose tenc
   default_KID (the only place the key id occurs in the file) is rewritten to KID_C – the
   video and the audio adaptation set of one period use DIFFERENT single key ids;
+* `nl`: encrypted bbb tracks on a stream WITHOUT stored licence URLs (the code falls back to its
+  built-in default);
 * extra rows in the `key` table (computed and non-computed keys) for the ClearKey
   licence checks;
 * a multi-period stream `c10mps` (period 1 = bbb, period 2 = tears, period 3 = mk).
@@ -33,6 +36,7 @@ import appboot
 
 KID_A = bytes.fromhex("1ab45440532c439994dc5c5ad9584bac")    # the fixture key id
 KID_B = bytes.fromhex("c001de8e567b5fcfbc22c565ed5bda24")
+KID_D = bytes.fromhex("0f1e2d3c4b5a69788796a5b4c3d2e1f0")
 KID_C = bytes.fromhex("a0d1c2e3f4054617b8291a0b1c2d3e4f")    # key id of the audio track of stream `va`
 MPS_NAME = "c10mps"
 
@@ -56,7 +60,10 @@ class Env:
                                          "a1_enc": [KID_A, KID_B]})
         self._add_multikey_stream("mx", {"v6_enc": [KID_A], "v7_enc": [KID_A, KID_B],
                                          "a1_enc": [KID_A]})
+        # three key ids per track (pssh version 1 with three KIDs, WRMHEADER 4.2 with three KID elements)
+        self._add_multikey_stream("m3", {"v6_enc": [KID_A, KID_B, KID_D], "a1_enc": [KID_A, KID_B, KID_D]})
         self._add_split_key_stream()
+        self._add_no_la_stream()
         self._add_extra_keys()
         self.mps_periods = self._add_mps()
 
@@ -96,6 +103,15 @@ class Env:
             files.append((stem, src))
         self.app.add_stream("va", "video and audio keys differ", files, real_index=False,
                             rep_cache=lambda s: self.tmp / f"rep-{s}.json")
+
+    def _add_no_la_stream(self):
+        """stream `nl`: encrypted bbb tracks, NO stored PlayReady / Marlin licence URL"""
+        self._add_multikey_stream("nl", {"v6_enc": [KID_A], "a1_enc": [KID_A]})
+        with self.app.ctx() as m:
+            st = m.Stream.get(directory="nl")
+            st.playready_la_url = None
+            st.marlin_la_url = None
+            m.db.session.commit()
 
     def _add_extra_keys(self):
         from dashlive.drm.playready import PlayReady
